@@ -331,16 +331,24 @@ def x_value(n, env, reader_id):
             if f["pat"].get("k") != "wild":
                 raise Unrecognised("loop variable used")
             body = stmts_of(f["body"])
-            if len(body) != 2 or body[0].get("k") != "let" or body[0]["pat"].get("k") != "bind":
-                raise Unrecognised("loop body")
             inner = env.copy()
-            ev = x_value(body[0]["init"], inner, reader_id)
+            # `let i = <read>; vec.push(i);`  or  `vec.push(<read>);`
+            if len(body) == 2 and body[0].get("k") == "let" and body[0]["pat"].get("k") == "bind" and "init" in body[0]:
+                elem_src, elem_id, push = body[0]["init"], body[0]["pat"]["id"], H.peel(body[1])
+            elif len(body) == 1:
+                elem_src, elem_id, push = None, None, H.peel(body[0])
+            else:
+                raise Unrecognised("loop body")
+            if not (push.get("k") == "mcall" and push["name"] == "push" and len(push["args"]) == 1
+                    and (H.local_of(push["recv"]) or (None,))[0] == vec_id):
+                raise Unrecognised("element is not pushed to the vector")
+            if elem_src is None:
+                elem_src = push["args"][0]
+            elif (H.local_of(push["args"][0]) or (None,))[0] != elem_id:
+                raise Unrecognised("the value pushed is not the element read")
+            ev = x_value(elem_src, inner, reader_id)
             if ev[0] not in ("prim", "ref"):
                 raise Unrecognised("element read")
-            push = H.peel(body[1])
-            if not (push.get("k") == "mcall" and push["name"] == "push" and (H.local_of(push["recv"]) or (None,))[0] == vec_id
-                    and (H.local_of(push["args"][0]) or (None,))[0] == body[0]["pat"]["id"]):
-                raise Unrecognised("element is not pushed to the vector")
             if (H.local_of(n["tail"]) or (None,))[0] != vec_id:
                 raise Unrecognised("block value is not the vector")
             return ("vec", cnt, ev)
@@ -708,8 +716,10 @@ def _enum(R, rid, m, fns, adt):
                 raise Unrecognised("guard presence differs from the DSL")
             if g is not None:
                 gc = g["e"] if g.get("k") == "try" else None
-                if not (gc and gc.get("k") == "call" and (gc.get("callee") or {}).get("path") == CR + "::pool_has_utf8" and len(gc["args"]) == 3):
-                    raise Unrecognised("guard is not pool_has_utf8(..)?")
+                want_fn = v["guard"][0].get("s") if v["guard"] else None
+                if not (gc and gc.get("k") == "call" and ((gc.get("callee") or {}).get("path") or "").startswith(CR + "::") and short((gc.get("callee") or {}).get("path")) == want_fn
+                        and (gc.get("callee") or {}).get("dk") == "Fn" and len(gc["args"]) == 3):
+                    raise Unrecognised("guard is not %s(..)?" % want_fn)
                 a0, a1, a2 = gc["args"]
                 l0, l1 = H.local_of(a0), H.local_of(a1)
                 lit = H.peel(a2).get("lit") or {}
@@ -727,8 +737,64 @@ def _enum(R, rid, m, fns, adt):
         R.inst(rid, "expand:%s/_read:fallback" % name, ok, sp=arm["sp"], detail="the last arm turns every other tag into Err")
 
 
+def _strip_conv(n):
+    """Peel integer conversions that do not change the value: `as`, `T::from(x)`, `T::try_from(x).unwrap()`, `x.try_into().expect(..)`."""
+    while True:
+        n = H.peel(n, casts=True, tries=True)
+        k = n.get("k")
+        if k == "call" and H.callee_name(n) in ("from", "try_from") and len(n["args"]) == 1:
+            n = n["args"][0]
+        elif k == "mcall" and n["name"] in ("into", "try_into", "unwrap", "expect") :
+            n = n["recv"]
+        else:
+            return n
+
+
+def _gen_calls(root, T, names):
+    """Calls (path or method syntax) of ClassFile::<name> inside root -> [(name, [all argument nodes incl. receiver])]"""
+    out = []
+    for n in H.walk(root):
+        if n.get("k") in ("call", "mcall"):
+            p = (n.get("callee") or {}).get("path") or ""
+            for nm in names:
+                if p == "%s::%s::%s" % (CR, T, nm):
+                    out.append((nm, H.call_args(n), n))
+    return out
+
+
+def _root_id(n):
+    return (H.local_of(H.peel(n)) or (None,))[0]
+
+
+def _returns(body, call):
+    """The function's value is the value of `call`: tail expression, `return call`, `Ok(call?)`, `call?; Ok(())`, `let r = call; r`."""
+    sts = stmts_of(body)
+    t = H.peel(sts[-1])
+    if t.get("k") == "ret":
+        t = H.peel(t["e"])
+    if t is call:
+        return True
+    c = H.ctor_of(t)
+    if c and c[1] == "Ok" and t.get("k") == "call":
+        a = H.peel(t["args"][0])
+        if a.get("k") == "try" and H.peel(a["e"]) is call:
+            return True
+        if a.get("k") == "tuple" and not a["es"]:
+            return any(s.get("k") == "semi" and s["e"].get("k") == "try" and H.peel(s["e"]["e"]) is call for s in sts[:-1])
+        loc = H.local_of(a)
+        if loc:
+            init = H.let_init_of(body, loc[0])
+            return init is not None and H.peel(init, tries=True) is call and init.get("k") == "try"
+    loc = H.local_of(t)
+    if loc:
+        init = H.let_init_of(body, loc[0])
+        return init is not None and H.peel(init) is call
+    return False
+
+
 def _api(c, R, rid):
-    """impl ClassFile { to_bytes, write, read, length }"""
+    """impl ClassFile { to_bytes, write, read, length }: each delegates to the generated function (any call syntax, value
+    conversions and `?`/`Ok(..)` re-wrapping allowed)."""
     T = "ClassFile"
 
     def body_call(fname):
@@ -739,93 +805,45 @@ def _api(c, R, rid):
 
     b, ids = body_call("write")
     if b:
-        t = H.peel(stmts_of(b["body"])[-1])
-        ok = (t.get("k") == "mcall" and t["name"] == "_write" and (t.get("callee") or {}).get("impl_ty") == "%s::%s" % (CR, T)
-              and (H.local_of(t["recv"]) or (None,))[0] == ids[0] and (H.local_of(t["args"][0]) or (None,))[0] == ids[1] and len(stmts_of(b["body"])) == 1)
-        R.inst(rid, "api:write", ok, sp=b["sp"], expect="self._write(writer)", got=H.render(b["body"])[:120])
+        cs = _gen_calls(b["body"], T, ["_write"])
+        ok = len(cs) == 1 and [_root_id(a) for a in cs[0][1]] == ids[:2] and _returns(b["body"], cs[0][2])
+        R.inst(rid, "api:write", ok, sp=b["sp"], expect="the result of self._write(writer)", got=H.render(b["body"])[:120])
     b, ids = body_call("read")
     if b:
-        t = H.peel(stmts_of(b["body"])[-1])
-        ok = (t.get("k") == "call" and (t.get("callee") or {}).get("path") == "%s::%s::_read" % (CR, T) and len(t["args"]) == 2
-              and (H.local_of(t["args"][0]) or (None,))[0] == ids[0] and (H.ctor_of(H.peel(t["args"][1])) or (None, None))[1] == "None"
-              and len(stmts_of(b["body"])) == 1)
-        R.inst(rid, "api:read", ok, sp=b["sp"], expect="ClassFile::_read(reader, None)", got=H.render(b["body"])[:120])
+        cs = _gen_calls(b["body"], T, ["_read"])
+        ok = (len(cs) == 1 and len(cs[0][1]) == 2 and _root_id(cs[0][1][0]) == ids[0]
+              and (H.ctor_of(H.peel(cs[0][1][1])) or (None, None))[1] == "None" and _returns(b["body"], cs[0][2]))
+        R.inst(rid, "api:read", ok, sp=b["sp"], expect="the result of ClassFile::_read(reader, None)", got=H.render(b["body"])[:120])
     b, ids = body_call("length")
     if b:
-        env = Env()
-        env.bind(ids[0], "self")
-        try:
-            sts = stmts_of(b["body"])
-            p = hir_poly(sts[-1], env) if len(sts) == 1 else None
-            node = H.peel(sts[-1], casts=True)
-            ok = p == Poly.var("total(self)") and (node.get("callee") or {}).get("impl_ty") == "%s::%s" % (CR, T)
-        except Unrecognised:
-            ok = False
-        R.inst(rid, "api:length", ok, sp=b["sp"], expect="self._len() as usize", got=H.render(b["body"])[:120])
+        cs = _gen_calls(b["body"], T, ["_len"])
+        sts = stmts_of(b["body"])
+        t = H.peel(sts[-1])
+        if t.get("k") == "ret":
+            t = t["e"]
+        loc = H.local_of(_strip_conv(t))
+        if loc and H.let_init_of(b["body"], loc[0]) is not None:
+            t = H.let_init_of(b["body"], loc[0])
+        ok = len(cs) == 1 and [_root_id(a) for a in cs[0][1]] == ids[:1] and _strip_conv(t) is cs[0][2]
+        R.inst(rid, "api:length", ok, sp=b["sp"], expect="self._len() converted to usize", got=H.render(b["body"])[:120])
     b, ids = body_call("to_bytes")
     if b:
+        cs = _gen_calls(b["body"], T, ["_write", "write"])
         sts = stmts_of(b["body"])
-        ok = False
-        if len(sts) == 3 and sts[0].get("k") == "let" and sts[0]["pat"].get("k") == "bind":
-            vec = sts[0]["pat"]["id"]
-            init = sts[0]["init"]
-            cap_ok = init.get("k") == "call" and H.callee_name(init) in ("new", "with_capacity") and init.get("ty") == "alloc::vec::Vec<u8>"
-            w = [n for n in H.walk(sts[1]) if n.get("k") == "mcall" and n["name"] == "_write"]
-            wr_ok = (len(w) == 1 and (w[0].get("callee") or {}).get("impl_ty") == "%s::%s" % (CR, T) and (H.local_of(w[0]["recv"]) or (None,))[0] == ids[0]
-                     and (H.local_of(w[0]["args"][0]) or (None,))[0] == vec)
-            ok = cap_ok and wr_ok and (H.local_of(sts[2]) or (None,))[0] == vec
-        R.inst(rid, "api:to_bytes", ok, sp=b["sp"], expect="let mut vec = Vec::..; self._write(&mut vec)..; vec", got=H.render(b["body"])[:160])
+        vec = _root_id(sts[-1]) if sts else None
+        init = H.let_init_of(b["body"], vec) if vec is not None else None
+        fresh = init is not None and init.get("k") == "call" and H.callee_name(init) in ("new", "with_capacity") and init.get("ty") == "alloc::vec::Vec<u8>"
+        ok = fresh and len(cs) == 1 and [_root_id(a) for a in cs[0][1]] == [ids[0], vec]
+        R.inst(rid, "api:to_bytes", ok, sp=b["sp"], expect="a fresh Vec<u8>, written once by self._write / self.write, returned", got=H.render(b["body"])[:160])
 
 
 # ================================================================================================ R20.3 helpers
-def check_pool_lookup(R, rid, fn, first_index, cp_adt):
-    """pool_has_utf8(pool, index, value): entry `index` is looked up at vector position index - first_index, must be a Utf8 entry,
-    and its bytes are compared for equality with `value`."""
-    ids = _param_ids(fn)
-    env = Env()
-    for p, nm in zip(ids, ("pool", "index", "value")):
-        env.bind(p, nm)
-    gets = [n for n in H.walk(fn["body"]) if n.get("k") == "mcall" and n["name"] in ("get", "get_unchecked")] + \
-           [n for n in H.walk(fn["body"]) if n.get("k") == "index"]
-    ok = False
-    got = None
-    if len(gets) == 1:
-        arg = gets[0]["args"][0] if gets[0].get("k") == "mcall" else gets[0]["i"]
-        try:
-            # follow `let position = ...;` bindings of immutable locals
-            for _ in range(4):
-                loc = H.local_of(H.peel(arg, casts=True))
-                if loc and loc[0] not in env.ids:
-                    init = H.let_init_of(fn["body"], loc[0])
-                    if init is None:
-                        break
-                    arg = init
-                else:
-                    break
-            p = hir_poly(arg, env)
-            got = p.show()
-            ok = p == Poly.var("index") - Poly.const(first_index)
-        except Unrecognised as e:
-            got = str(e)
-    R.inst(rid, "pool:index-base", ok, sp=fn["sp"], expect="index - %d" % first_index, got=got,
-           detail="constant-pool index i (1-based) is element i-1 of the vector when every entry takes one slot")
-    # the entry must be destructured as Utf8 and compared with ==
-    pats = []
-    for n in H.walk(fn["body"]):
-        for key in ("pat",):
-            p = n.get(key)
-            if isinstance(p, dict) and p.get("k") == "pstruct" and p["res"].get("adt") == cp_adt:
-                pats.append(p["res"].get("variant"))
-        if n.get("k") == "match":
-            for a in n["arms"]:
-                p = a["pat"]
-                if p.get("k") == "pstruct" and p["res"].get("adt") == cp_adt:
-                    pats.append(p["res"].get("variant"))
-    eqs = [n for n in H.walk(fn["body"]) if n.get("k") == "bin" and n["op"] in ("==", "!=")]
-    ok2 = pats == ["Utf8"] and len(eqs) == 1 and eqs[0]["op"] == "==" and any(
-        (H.local_of(x) or (None,))[0] == ids[2] for x in (eqs[0]["l"], eqs[0]["r"]))
-    # the comparison is the Ok value
-    R.inst(rid, "pool:utf8-compare", ok2, sp=fn["sp"], expect="Utf8 { bytes } => bytes == value", got="variants %s, %d comparisons" % (pats, len(eqs)))
+def check_pool_lookup(c, R, rid, fn, first_index, cp_adt):
+    """see lib/c20_pool.py: decided by partial evaluation of the lookup function over four abstract pools"""
+    from lib import c20_pool
+    inline = {b["key"]: b for b in c.bodies if b.get("dk") == "Fn" and b["key"] != fn["key"] and b.get("body") is not None}
+    variants = [v["name"] for v in (c.adts.get(cp_adt) or {}).get("variants", []) if v["name"] != "Utf8"]
+    c20_pool.check(R, rid, fn, first_index, variants, inline=inline)
 
 
 def needs_pool(M, tname, seen=None):
